@@ -114,6 +114,31 @@ Theorem C18_isolation_untouched :
 Proof. exact isolation_untouched_ok. Qed.
 Print Assumptions C18_isolation_untouched.
 
+(* behaviour: every answer that is a function of the connection's own tables -- the classification of a
+   prompt by _determine_current_priv read without its cache is one, `classify m` for any regex matcher m --
+   is the same before and after any operation(s) on other connections.  That the real code's answers ARE
+   such a function (no cache or other state shared between connections) is what harness/c18_iso.py observes. *)
+Theorem C18_isolation_answers :
+  forall (Q R : Type) (f : conn_view -> Q -> R) s ops o j q, init_ok s = true ->
+    (j < length (st_conns (run s ops)))%nat -> target o <> Some j ->
+    answer f (fst (step (run s ops) o)) j q = answer f (run s ops) j q.
+Proof. exact isolation_answers_ok. Qed.
+Print Assumptions C18_isolation_answers.
+
+Theorem C18_isolation_answers_untouched :
+  forall (Q R : Type) (f : conn_view -> Q -> R) s ops1 ops2 j q, init_ok s = true ->
+    (j < length (st_conns (run s ops1)))%nat -> Forall (fun o => target o <> Some j) ops2 ->
+    answer f (run (run s ops1) ops2) j q = answer f (run s ops1) j q.
+Proof. exact isolation_answers_untouched_ok. Qed.
+Print Assumptions C18_isolation_answers_untouched.
+
+Theorem C18_isolation_classification :
+  forall m s ops o j prompt, init_ok s = true ->
+    (j < length (st_conns (run s ops)))%nat -> target o <> Some j ->
+    answer (classify m) (fst (step (run s ops) o)) j prompt = answer (classify m) (run s ops) j prompt.
+Proof. exact (fun m => isolation_answers_ok bytes (option (list bytes)) (classify m)). Qed.
+Print Assumptions C18_isolation_classification.
+
 (* ---- tie to the current source tree (Gen_Factory.v is regenerated on every run) ------------------- *)
 (* the heap built from the real PRIVS / FAILED_WHEN_CONTAINS of the five platforms is well-formed,
    so the isolation theorems apply to it *)
